@@ -29,50 +29,83 @@ def success_positions(F):
 
 
 def ordered_calls(ck, prog, F, chain, rule):
-    cfg = F.cfg
-    pos = {}
-    for name in chain:
-        calls = list(F.body.calls(name))
-        if not calls:
-            ck.violation(rule, "%s/%s/%s-missing" % (rule, F.name, name), site(prog, F),
-                         "%s never calls %s" % (F.name, name), prog.config)
-            pos[name] = []
-            continue
-        pos[name] = [(c, cfg.position(c)) for c in calls]
-    succ = success_positions(F)
-    if not succ:
+    """must-pass-through and precedence of the pipeline stages, seen through helper functions (kcheck/lift.py)"""
+    from ..callgraph import CallGraph
+    from ..lift import Lifted
+    L = Lifted(prog, CallGraph(prog))
+    if not F.success_returns():
         raise AnalysisBroken("%s: %s has no success return" % (rule, F.name))
     n = 0
+    present = {}
     for name in chain:
-        if not pos[name]:
+        may = L.sites(F, name, "may")
+        present[name] = bool(may)
+        where = site(prog, may[0] if may else F, name)
+        if not may:
+            ck.violation(rule, "%s/%s/%s-missing" % (rule, F.name, name), site(prog, F),
+                         "%s never calls %s (neither directly nor through a helper)" % (F.name, name), prog.config)
             continue
         n += 1
-        avoid = [p for _, p in pos[name]]
-        where = site(prog, pos[name][0][0], name)
-        ck.inst(rule, where, "%s: every path to a success return passes through %s" % (F.name, name), prog.config)
-        for s in succ:
-            if cfg.reaches(None, s, avoid=avoid):
-                ck.violation(rule, "%s/%s/%s-skippable" % (rule, F.name, name), where,
-                             "%s can return success without calling %s" % (F.name, name), prog.config)
-                break
+        ck.inst(rule, where, "%s: every path to a success return passes through %s%s" % (
+            F.name, name, "" if may[0].callee == name else " (inside %s)" % may[0].callee), prog.config)
+        if not L.passes_through(F, name):
+            ck.violation(rule, "%s/%s/%s-skippable" % (rule, F.name, name), where,
+                         "%s can return success without %s having run" % (F.name, name), prog.config)
     for a, b in zip(chain, chain[1:]):
-        if not pos[a] or not pos[b]:
+        if not present[a] or not present[b]:
             continue
         n += 1
-        where = site(prog, pos[b][0][0], "%s<%s" % (a, b))
+        sb = L.sites(F, b, "may")
+        where = site(prog, sb[0], "%s<%s" % (a, b))
         ck.inst(rule, where, "%s: %s precedes %s on every path" % (F.name, a, b), prog.config)
-        avoid = [p for _, p in pos[a]]
-        bad = False
-        for cb, pb in pos[b]:
-            if cfg.reaches(None, pb, avoid=avoid):
-                bad = True
-            for ca, pa in pos[a]:
-                if cfg.reaches(pb, pa):
-                    bad = True
-        if bad:
+        why = L.precedes(F, a, b)
+        if why:
             ck.violation(rule, "%s/%s/%s-before-%s" % (rule, F.name, a, b), where,
-                         "in %s, %s is not always preceded by %s (or %s can run again after it)" % (F.name, b, a, a),
-                         prog.config)
+                         "in %s, %s is not always preceded by %s: %s" % (F.name, b, a, why), prog.config)
+    return n
+
+
+def dealign_rule(ck, prog, rule):
+    """kalign_run de-aligns whenever the status is not UNALIGNED (shared by R01a and R04b)"""
+    from ..callgraph import CallGraph
+    from ..lift import Lifted
+    F = prog.fn("kalign_run")
+    L = Lifted(prog, CallGraph(prog))
+    n = 0
+    found = L.find_call(F, "dealign_msa")
+    if not found:
+        if L.sites(F, "dealign_msa", "may"):
+            raise AnalysisBroken("%s: dealign_msa is reached from kalign_run only through non-private helpers; its guard cannot be decided" % rule)
+        ck.violation(rule, "%s/kalign_run/dealign-missing" % rule, site(prog, F),
+                     "kalign_run never calls dealign_msa: gaps of aligned input survive into the alignment", prog.config)
+        return 0
+    for G, c in found:
+        where = site(prog, c, "dealign_msa")
+        n += 1
+        ck.inst(rule, where, "%s: dealign_msa runs whenever the status is not UNALIGNED, before the merge phase" % G.name, prog.config)
+        conds = list(guards(c))
+        if G is not F:
+            for hc in L.sites(F, "dealign_msa", "may"):
+                conds += list(guards(hc))
+        for cond, pol in conds:
+            if cond.mac and ("RUN" in cond.mac):
+                continue
+            if cond.parent is not None and cond.parent.k in ("ForStmt", "WhileStmt"):
+                continue
+            lits = [macro_of_const(l) for l in cond.find("IntegerLiteral")]
+            t = cond.strip()
+            ok = (t.k == "BinaryOperator" and "ALN_STATUS_UNALIGNED" in lits and
+                  any(m.d.get("field") == "aligned" for m in t.find("MemberExpr")) and
+                  ((t.d["op"] == "!=" and pol) or (t.d["op"] == "==" and not pol)))
+            if not ok:
+                ck.violation(rule, "%s/kalign_run/dealign-guard" % rule, where,
+                             "dealign_msa is additionally conditional on %s%s: some aligned inputs keep their gaps" % (
+                                 "" if pol else "!", cond.text()), prog.config)
+    cfg = F.cfg
+    for ca in L.sites(F, "dealign_msa", "may"):
+        for cb in L.sites(F, "create_msa_tree", "may"):
+            if ca is not cb and cfg.reaches(cfg.position(cb), cfg.position(ca)):
+                ck.violation(rule, "%s/kalign_run/dealign-late" % rule, site(prog, ca), "dealign_msa can run after create_msa_tree", prog.config)
     return n
 
 
@@ -81,32 +114,7 @@ def r01a(ck, prog):
     n = ordered_calls(ck, prog, F, PIPELINE, "R01a")
     W = prog.fn("kalign")
     n += ordered_calls(ck, prog, W, WRAPPER, "R01a")
-    # de-alignment: called, before the canonical sort, guarded only by the status test
-    calls = list(F.body.calls("dealign_msa"))
-    if not calls:
-        ck.violation("R01a", "R01a/kalign_run/dealign-missing", site(prog, F),
-                     "kalign_run never calls dealign_msa: gaps of aligned input survive into the alignment", prog.config)
-    for c in calls:
-        where = site(prog, c, "dealign_msa")
-        n += 1
-        ck.inst("R01a", where, "kalign_run: dealign_msa runs whenever the status is not UNALIGNED, before the sort", prog.config)
-        for cond, pol in guards(c):
-            if cond.mac and ("RUN" in cond.mac):
-                continue
-            lits = [macro_of_const(l) for l in cond.find("IntegerLiteral")]
-            t = cond.strip()
-            ok = (t.k == "BinaryOperator" and "ALN_STATUS_UNALIGNED" in lits and
-                  any(m.d.get("field") == "aligned" for m in t.find("MemberExpr")) and
-                  ((t.d["op"] == "!=" and pol) or (t.d["op"] == "==" and not pol)))
-            if not ok:
-                ck.violation("R01a", "R01a/kalign_run/dealign-guard", where,
-                             "dealign_msa is additionally conditional on %s%s: some aligned inputs keep their gaps" % (
-                                 "" if pol else "!", cond.text()), prog.config)
-        sorts = [F.cfg.position(s) for s in F.body.calls("msa_sort_len_name")]
-        trees = [F.cfg.position(s) for s in F.body.calls("create_msa_tree")]
-        pc = F.cfg.position(c)
-        if any(F.cfg.reaches(t, pc) for t in trees if t):
-            ck.violation("R01a", "R01a/kalign_run/dealign-late", where, "dealign_msa can run after create_msa_tree", prog.config)
+    n += dealign_rule(ck, prog, "R01a")
     ck.floor("R01a", n, 15, "ordering obligations")
 
 
@@ -462,8 +470,22 @@ def r01e(ck, prog):
             ck.violation("R01e", v["key"].replace("R04b", "R01e"), v["site"], v["msg"], v["config"])
 
 
+def r01f(ck, prog):
+    from . import c15
+    from ..report import Check
+    before = len(ck.instances)
+    c15.r15e(ck, prog)
+    for i in ck.instances[before:]:
+        i["rule"] = "R01f"
+    for v in ck.violations:
+        if v["rule"] == "R15e":
+            v["rule"] = "R01f"
+            v["key"] = v["key"].replace("R15e", "R01f")
+
+
 def run(ck, progs):
     describe(ck)
+    ck.rule("R01f", "the writers emit exactly the columns [0, alnlen) of every row (= R15e; recognised loop shapes only, otherwise no verdict)")
     ck.rule("R01e", "every loop over msa_seq.gaps covers all len+1 slots (row length = len + sum of gaps[0..len])")
     for cfg, prog in progs.items():
         ck.attempt(r01a, ck, prog)
@@ -471,6 +493,7 @@ def run(ck, progs):
         ck.attempt(r01c, ck, prog)
         ck.attempt(r01d, ck, prog)
         ck.attempt(r01e, ck, prog)
+        ck.attempt(r01f, ck, prog)
     return ("CFG must-pass-through / precedence for the six pipeline stages of kalign_run and the three of kalign(); "
             "who-may-read/write table for msa_seq.rank over every function; provenance of every store into a row buffer "
             "and every residue print in the functions reachable from the exporters; status gate reachability and "
